@@ -17,13 +17,10 @@ import (
 	"bytes"
 	"fmt"
 	"hash/fnv"
-	"os"
 	"runtime/debug"
-	"runtime/pprof"
 	"sort"
 	"strings"
 	"sync/atomic"
-	"time"
 
 	"verif/lib/codecs"
 	"verif/lib/vlib"
@@ -169,12 +166,16 @@ func tryCase(f *codecs.Format, w *witness, st *stats) (res *failure) {
 	fail := func(class, what string, fi, pi int, extra func(*witness)) {
 		ww := *w
 		ww.Frame, ww.Packet, ww.Detail = fi, pi, what
-		if p.Variant == "lsf3" && (strings.HasPrefix(class, "roundtrip/") || class == "decode-error") {
+		switch {
+		case p.Variant == "lsf3" && (strings.HasPrefix(class, "roundtrip/") || class == "decode-error"):
 			// one root cause (the frame length the decoder derives from an MPEG-2 layer III header is
 			// twice the ISO 13818-3 one) shows as lost, merged, differing units or a parse error
 			// depending on the grouping: one key for all of them
 			what = "[" + class + "] " + what
 			class = "roundtrip/mpeg2-layer3-frame-length"
+		case p.Variant == "dri" && class == "decode-error" && strings.Contains(what, "is not supported"):
+			// the M-JPEG encoder sends RFC 2435 types 64..127 for images with a DRI segment, the decoder rejects them
+			class = "roundtrip/restart-interval-unsupported"
 		}
 		if extra != nil {
 			extra(&ww)
@@ -378,11 +379,6 @@ type job struct {
 func main() {
 	run = vlib.Start("C03", "exploration")
 	debug.SetGCPercent(400) // allocation-heavy, tiny live heap
-	if pf := os.Getenv("VERIF_PPROF"); pf != "" {
-		fh, _ := os.Create(pf)
-		_ = pprof.StartCPUProfile(fh)
-		defer pprof.StopCPUProfile()
-	}
 	if run.Replay != "" {
 		var w witness
 		if err := run.LoadReplay(&w); err != nil {
@@ -417,7 +413,6 @@ func main() {
 	// small limits first: the first witness stored per key is then a small one
 	sort.SliceStable(jobs, func(i, j int) bool { return jobs[i].m < jobs[j].m })
 
-	t0 := time.Now()
 	// 1. systematic part: consecutive size vectors of the sweep are chained into sequences of 1..5
 	// frames through one encoder/decoder pair
 	run.Parallel(len(jobs), func(_, i int) {
@@ -450,7 +445,7 @@ func main() {
 			witness{Format: jobs[i].f.Name, Params: jobs[i].p, Max: jobs[i].m, Stack: stack})
 	})
 
-	fmt.Fprintf(os.Stderr, "systematic part done: %d frames, %.1fs\n", evals.Load(), time.Since(t0).Seconds())
+	run.Extra("systematic_frames", evals.Load())
 
 	// 2. sampled part: PRNG params, limits, 1..5 frames of PRNG size vectors, PRNG start sequence numbers
 	fs := codecs.All()
@@ -487,7 +482,6 @@ func main() {
 		run.Violation(fs[i/shards].Name+"/panic/"+vlib.PanicSite(stack), fmt.Sprintf("panic: %v", v), witness{Format: fs[i/shards].Name, Stack: stack})
 	})
 
-	pprof.StopCPUProfile()
 	run.Extra("grammars", grammar)
 	run.Extra("payload_limits", limits)
 	run.Extra("jobs", len(jobs))
